@@ -340,6 +340,12 @@ class TheJoker:
             else:
                 ln_prior = return_logprobs
 
+            if max_prior_samples is not None:
+                # never process more than the requested number of prior samples
+                prior_samples = prior_samples[:max_prior_samples]
+                if hasattr(ln_prior, "__len__"):
+                    ln_prior = ln_prior[:max_prior_samples]
+
             samples = iterative_rejection_inmem(
                 joker_helper,
                 prior_samples,
